@@ -73,6 +73,12 @@ func VH_C11_batch() {
 				m.cancelThr = tid
 				vCover("cancel-inside-exec")
 			})
+			if vParam("slowAfterCancel", 0) > 0 && vNondet[bool]("execKeepsWorkingAfterTheCancel") {
+				// an exec that does not watch its context goes on for a (virtual) second: the batch
+				// still settles every item before post
+				vCover("exec-keeps-working-after-the-cancel")
+				time.Sleep(time.Second)
+			}
 		}
 		return res, err
 	}
